@@ -7,4 +7,6 @@ ls -d seeded/${1:-*}/ | xargs -P ${PAR:-3} -I{} bash -c '
 import json,sys
 d=json.load(sys.stdin)
 ok = d.get(\"demo_clean_rc\")==0 and d.get(\"patch_applies\") and d.get(\"demo_patched_rc\")==1 and d.get(\"caught\")
+if json.load(open(\"$d/meta.json\")).get(\"neutralised\"):   # no longer a violation: demo passes, check quiet
+    ok = d.get(\"demo_clean_rc\")==0 and d.get(\"patch_applies\") and d.get(\"demo_patched_rc\")==0 and d.get(\"check_rc\")==0
 print((\"ok     \" if ok else \"PROBLEM\"), \"$n\", {k:d.get(k) for k in [\"demo_clean_rc\",\"patch_applies\",\"demo_patched_rc\",\"check_rc\"]}, d.get(\"check_signatures\",[])[:2])"'
